@@ -5,14 +5,15 @@ CONSTANTS
  Dur = 1
  FailSet = {}
  MaxTime = 4
- Waits <- W1
- CancelOf <- CancelT
+ Waits <- NoWaits
+ CancelOf <- NoCancel
  Foreign = FALSE
- KindOf <- AllCalls
- LoadOf <- NoLoad
+ KindOf <- K_acf
+ LoadOf <- L_acf
  ClearInputs = TRUE
 INVARIANT Inv_C03
 INVARIANT Inv_C07
 INVARIANT Inv_C08
 INVARIANT DeliveredAtHorizon
 INVARIANT NoWaitStuck
+INVARIANT NeverSlowLoad
